@@ -10,7 +10,7 @@ RULE = ('cases = (generated document, xml mode, position); documents from random
         'valueless, expression and Angular/React attributes, comments, CDATA, PIs, special and non-special script/style), every position 0..len, '
         'three functions each. Non-trivial = the position lies strictly inside at least one element; distinct by (document, position)')
 ASSUMPTIONS = ['generator bookkeeping is self-checked: every recorded range slices to the text it claims',
-               'end tags are written without inner blanks, unquoted values without "/" and attribute values without backslashes (outside the stated generator)',
+               'end tags are written without inner blanks; an unquoted value does not end in "/" right before ">" (that spells "/>")',
                'an end tag repeats the letter case of its start tag and script / style are written in lower case: the matcher pairs names as written (HTML\'s '
                'case-insensitive pairing is not claimed by the statement); void elements ARE generated in upper / capitalised form (`<BR>`): the statement names them',
                'balanced_inward boundary convention is left open: first entry = a recorded element touching the position with no recorded descendant strictly containing it; rest = exactly its first-child chain']
